@@ -18,3 +18,4 @@ open PubModel.C11
 #print axioms gen_build_shape
 #print axioms gen_rule_types
 #print axioms gen_digest_covers_qualified_name
+#print axioms gen_parse_recovery_consumes
